@@ -130,10 +130,15 @@ def showbias(
 
     if isinstance(group_columns, str):
         groups = data[group_columns]
+        group_keys = None
     elif isinstance(group_columns, Iterable):
-        groups = data.apply(
-            lambda row: "_".join(row[col] for col in group_columns), axis=1
-        )
+        # Rows are grouped by the tuple of their group values, so the values may contain
+        # any character. The distinct tuples are numbered in the order of their
+        # "_"-joined names and the numbers are used as group labels.
+        row_keys = list(zip(*[data[col] for col in group_columns]))
+        group_keys = sorted(set(row_keys), key=lambda key: ("_".join(key), key))
+        key_numbers = {key: number for number, key in enumerate(group_keys)}
+        groups = pd.Series([key_numbers[key] for key in row_keys], index=data.index)
     else:
         raise TypeError(
             f"Got unexpected type {type(group_columns)} value for `group_columns`"
@@ -161,6 +166,8 @@ def showbias(
         return getattr(sample.group_cm(**kwargs), metric)()
 
     group_names = score_object.groups
+    if group_keys is not None:
+        group_names = [group_keys[number] for number in group_names]
     group_index = _get_group_index(group_names, group_columns)
     group_metrics = calculate_group_metric(score_object, **metric_kwargs)
 
@@ -298,27 +305,22 @@ def _validate_column_inputs(
     assert score_column in data.columns, "`score_column` not found in `data`"
 
 
-def _get_group_index(group_names: np.ndarray, group_columns: Union[str, List[str]]):
+def _get_group_index(group_names, group_columns: Union[str, List[str]]):
     """
     Creates a pandas index object for group identifiers.
 
     Args:
-        group_names: Array of strings identifying groups. For MultiIndex, strings should
-            be concatenated values separated by underscores.
+        group_names: Group identifiers. For a simple Index, an array of strings. For a
+            MultiIndex, a list of tuples with one group value per group column.
         group_columns: List of column names for grouping. The list's length should match
-            the number of elements in each group identifier when split by underscores.
-            Can be a single string for a simple Index.
+            the length of each group identifier. Can be a single string for a simple
+            Index.
 
     Returns:
         pd.Index or pd.MultiIndex: A pandas Index or MultiIndex object representing the
         group identifiers, suitable for indexing or grouping operations.
-
-    Raises:
-        ValueError: If `group_columns` is a list and the length of any group identifier
-        (when split) does not match the length of `group_columns`.
     """
-    if isinstance(group_columns, list):
-        group_index = list(zip(*[group_name.split("_") for group_name in group_names]))
-        return pd.MultiIndex.from_arrays(group_index, names=group_columns)
-    else:
+    if isinstance(group_columns, str):
         return pd.Index(group_names, name=group_columns)
+    else:
+        return pd.MultiIndex.from_tuples(group_names, names=group_columns)
